@@ -746,6 +746,21 @@ def c14_directives(src, quick=True, timeout=300):
                 "kind": "entries_exact", "structured": True, "macros": INFO, "positions": [T.marks["s1msg"], T.marks["s2"] + 6]}
         case("c14-nokvp-applies-%s" % sname, build_nokvp)
 
+        def build_nokvp_multiline(sname=sname, op=op, cl=cl):
+            # the statement's arguments are on later lines; a comment inside the argument list is not a directive for it
+            T = tmpl.Template("c14bm_%s" % sname)
+            T.lit(op + " " + nok + " " + cl + "\n")
+            T.lit("info", mark="s1").lit("!(\n    k = 1;\n    ").lit('"').hole("s1m", 2, MSG_CHARS, mark="s1msg").lit('"\n);\n')
+            T.lit("info", mark="s2").lit("!(\n    k = 1;\n    " + op + " " + nok + " " + cl + "\n    ").lit('"').hole("s2m", 2, MSG_CHARS, mark="s2msg").lit('"\n);\n')
+            t, cons = finish(T, ["s1msg", "s2msg"])
+            fm = model.FileModel(src, t)
+            e1 = model.SymEntry(fm, T.marks["s1"], INFO, True, dirs)
+            e2 = model.SymEntry(fm, T.marks["s2"], INFO, True, dirs)
+            good = And(e1.considered, e1.is_string, e1.pos.get(T.marks["s1msg"], False), e2.considered, Not(e2.is_string))
+            return t, cons, Not(good), "`%s <breadlog:no-kvp> %s` before a statement spread over several lines; the same comment inside an argument list" % (op, cl), {
+                "kind": "entries_exact", "structured": True, "macros": INFO, "positions": [T.marks["s1msg"], T.marks["s2"] + 6]}
+        case("c14-nokvp-multiline-%s" % sname, build_nokvp_multiline)
+
         for sep in ("foo();", "// x"):
             def build_sep(sname=sname, op=op, cl=cl, sep=sep):
                 T = tmpl.Template("c14c_%s_%d" % (sname, len(sep)))
@@ -822,4 +837,51 @@ def c10_multi_config(src, structured=False, timeout=300):
         out.append(run_query("c10-multi-config-%s-%s" % ("found" if should else "ignored", name.replace("::", "_")), t, cons, goal,
                              "config with 4 macros (two named info); statement %s!(\"<3 chars>\")" % name, timeout,
                              extra={"expect": exp}))
+    return out
+
+
+# ================================================================================================
+# C12 through find(): where in a statement a token counts
+# ================================================================================================
+def c12_in_statement(src, timeout=300):
+    out = []
+    cases = [
+        ("at-start", lambda T: T.lit('"').mark("tok").lit("[ref: ").hole("d", 2, A.ASCII_DIGIT, mark="dig").lit("] ").hole("m", 2, MSG_CHARS, mark="m").lit('"'), True),
+        ("after-blank", lambda T: T.lit('"').hole("b", 1, frozenset([ord(" "), 9])).mark("tok").lit("[ref: ").hole("d", 2, A.ASCII_DIGIT, mark="dig").lit("] ").hole("m", 1, MSG_CHARS, mark="m").lit('"'), False),
+        ("after-text", lambda T: T.lit('"').hole("m", 2, frozenset(c for c in MSG_CHARS if c not in (ord('"'), ord("\\")))).mark("tok").lit("[ref: ").hole("d", 2, A.ASCII_DIGIT, mark="dig").lit("]").lit('"'), False),
+        ("in-target", lambda T: T.lit('target: "[ref: ').hole("d", 2, A.ASCII_DIGIT, mark="dig").lit(']", "').hole("m", 2, frozenset(c for c in MSG_CHARS if c not in (ord('"'), ord("\\"), ord("[")))).lit('"'), False),
+        ("in-key-value", lambda T: T.lit('k = "[ref: ').hole("d", 2, A.ASCII_DIGIT, mark="dig").lit(']"; "').hole("m", 2, frozenset(c for c in MSG_CHARS if c not in (ord('"'), ord("\\"), ord("[")))).lit('"'), False),
+        ("second-argument", lambda T: T.lit('"').hole("m", 2, frozenset(c for c in MSG_CHARS if c not in (ord('"'), ord("\\"), ord("[")))).lit('", "[ref: ').hole("d", 2, A.ASCII_DIGIT, mark="dig").lit(']"'), False),
+    ]
+    for idx, (name, build, should) in enumerate(cases):
+        if not mine(idx):
+            continue
+        T = tmpl.Template("c12s%d" % idx)
+        T.hole("pre", 2, tmpl.NO_QUOTE_SLASH).lit("info", mark="name").lit("!(")
+        build(T)
+        T.lit(")").tail("rest", 2)
+        t, cons = T.build()
+        cons += prefix_is_code(t, T) + no_directive(t)
+        if "m" in T.holes and name in ("at-start", "after-blank"):
+            cons += tmpl.string_body_ok(t, T.holes["m"][0], T.holes["m"][1])
+        fm = model.FileModel(src, t)
+        p0 = T.marks["name"]
+        if p0 not in fm.found:
+            out.append({"name": "c12-statement-%s" % name, "verdict": "violated", "seconds": 0.0, "twin": None, "note": "",
+                        "bound": name, "witness": {"text": solve.any_instance(t, cons), "why": "statement not recognised"},
+                        "expect": {"kind": "entry_ref", "structured": False, "macros": INFO, "has_ref": should, "digits_at": T.marks["dig"], "ndigits": 2}})
+            continue
+        e = model.SymEntry(fm, p0, INFO, False, None)
+        v = digits_value(t, T.marks["dig"], 2)
+        if should:
+            good = False
+            for cond, dspan, val in e.ref_spans:
+                good = Or(good, And(cond, val == v))
+            good = And(e.considered, good, Not(e.needs_id))
+        else:
+            good = And(e.considered, Not(e.has_ref), e.needs_id)
+        out.append(run_query("c12-statement-%s" % name, t, cons, Not(good),
+                             "info!(<token %s>) with a 2-digit number and symbolic surrounding text" % name, timeout,
+                             extra={"expect": {"kind": "entry_ref", "structured": False, "macros": INFO, "has_ref": should,
+                                               "digits_at": T.marks["dig"], "ndigits": 2}}))
     return out
